@@ -67,6 +67,12 @@ def scenarios(ctx):
             p = dict(base_f, **m, batching="multi", baseline=base, max_batch_size=220, linger_ms=300, value_pad=60,
                      program=[[(0, T), (0, T + 1), (0, T + 2)], [(0, T + 3), (1, T + 4)]], flush_gate=True, stop_gate=True)
             out.append((f"parked-send-{mname}-{base}", p, [{"k": 1, "r": 1}] if quick else THOROUGH_B))
+    # a partition that loses its leader for good once records are pending (non-idempotent producers give up after the request
+    # timeout): every accepted future must still resolve, flush()/stop() must still return
+    for base in (("app",) if quick else ("app", "net")):
+        p = dict(base_f, acks=1, batching="single", baseline=base, program=[[(0, T), (0, T + 1), (0, T + 2)], [(1, T + 3)]],
+                 mode_after=[1, ["leaderless", 0]], flush_gate=True, stop_gate=True, k_mid=False)
+        out.append((f"leaderless-acks1-{base}", p, [{"k": 1}] if quick else [{"k": 1}, {"r": 1}, {"f": 1}]))
     return out
 
 
